@@ -573,8 +573,12 @@ func main() {
 					big = true
 				}
 			}
-			if big && tier == "thorough" {
-				b-- // 1 MiB scenarios are long
+			bidi := false
+			if len(sc.CChunks) > 0 && len(sc.TChunks) > 0 && sc.CChunks[0] > 4096 && sc.TChunks[0] > 4096 {
+				bidi = true
+			}
+			if big && !(bidi && tier == "quick") {
+				b-- // long executions; the simultaneous-large-chunk scenarios keep the full bound in quick
 			}
 			body, check := run(sc)
 			seen := map[string]bool{}
